@@ -98,6 +98,31 @@ def bigRoute (key : Bytes) (d : BigDesc) : Routed :=
     | .ok m => if m.mid % 4 ≠ 1 ∧ m.mid % 4 ≠ 3 then .err "parity2" else .enc m
   else route prims key (bigPacket key d)
 
+/-- `c04.hold` (harness/cmd/vh/c04hold.go): (via, key, packet, expectation)* — a sequence whose messages the harness all
+keeps and compares with the copies it took when they were handed out. In the model a message is a value: what one call
+returned cannot be touched by a later call, so every step answers what the single-packet operation answers
+(o = `DeserializeEncrypted`, u = `DeserializeUnencrypted`, r / s = `ReadMsg` on the first / second transport, O / R = a
+described packet through `DeserializeEncrypted` / `ReadMsg`), and the line never ends in a changed-message report. -/
+def holdSteps : List String → Option (List String)
+  | [] => some []
+  | via :: key :: pkt :: _expect :: rest =>
+    match parseTok? key, holdSteps rest with
+    | some key, some r =>
+      if via = "O" ∨ via = "R" then
+        match parseDesc? pkt with
+        | some d => some ((if via = "O" then showOutcome showMsg (bigOpen key d) else showRouted (bigRoute key d)) :: r)
+        | none => none
+      else
+        match parseTok? pkt with
+        | some pkt =>
+          if via = "o" then some (showOutcome showMsg (openClient prims key pkt) :: r)
+          else if via = "u" then some (C03.showUnenc (Unenc.deserialize pkt) :: r)
+          else if via = "r" ∨ via = "s" then some (showRouted (route prims key pkt) :: r)
+          else none
+        | none => none
+    | _, _ => none
+  | _ => none
+
 /-- operations of property C04 (see harness/cmd/vh/c04.go). The last token of each operation is the
 generator's expectation for the Go-side oracle; the model does not look at it. -/
 def handle : List String → String
@@ -139,6 +164,15 @@ def handle : List String → String
       else if via = "route" then showRouted (bigRoute key d)
       else "bad-op"
     | _, _ => "bad-op"
+  -- a sequence of packets whose messages are all held by the harness (c04hold.go)
+  | "c04.hold" :: md :: steps =>
+    if md = "p1,gcoff" ∨ md = "pn,gcoff" ∨ md = "p1,gcforce" ∨ md = "pn,gcon" ∨ md = "p1,gcon" ∨ md = "pn,gcforce" then
+      match holdSteps steps with
+      | some (r :: rs) => " ; ".intercalate (r :: rs)
+      | _ => "bad-op"
+    else "bad-op"
+  -- the harness compares everything it holds (forced collections first); nothing to compute in the model
+  | ["c04.heldcheck", _] => "held:intact"
   -- a frame cut short by the end of the connection: the framing layer delivers nothing, `ReadMsg` returns its
   -- connection error (one class; the deserialisers are not reached)
   | ["c04.cut", key, declared, sent, seed] =>
